@@ -572,3 +572,38 @@ def nodup_doc(d):
         ks = [kb(k) for k, _ in d]
         return len(set(ks)) == len(ks) and all(nodup_doc(v) for _, v in d)
     return True
+
+# ------------------------------------------------------------------ structured related pairs (level 2)
+def set_flag_py(s, f):
+    return s if s[0] == 'N' else (s[0], f) + tuple(s[2:])
+
+def structured_pairs(base=None, stride=1):
+    """systematic related pairs one level above `base` (default level 1): each base shape s is paired
+    with deterministic relatives m(s) and both are put under the same wrappers, so that the nested
+    arms of is_subset / merger (Object in OneOf, OneOf in OneOf, Tuple against Array<OneOf>, ...)
+    are exercised with operands that are close to each other."""
+    base = base or level1()
+    base = base[::stride]
+    out = []
+    B0 = ('B', False)
+    for s in base:
+        rel = [s, set_flag_py(s, True), set_flag_py(s, False), ('U', False, (s, ('N',))), ('U', False, (s, B0)),
+               ('U', True, (s,)), ('U', False, (set_flag_py(s, True), B0))]
+        if s[0] == 'T':
+            rel.append(('A', s[1], ('U', False, tuple(s[2]))))
+            rel.append(('A', True, ('U', False, tuple(s[2]) + (('N',),))))
+        if s[0] == 'O' and s[2]:
+            rel.append(('O', s[1], s[2][1:]))
+            rel.append(('O', s[1], tuple((k, set_flag_py(v, True)) for k, v in s[2])))
+            rel.append(('O', s[1], s[2] + (('zz', ('S', True)),)))
+        for m in rel:
+            for wrap in (lambda x: x, lambda x: ('A', False, x), lambda x: ('T', False, (x, B0)),
+                         lambda x: ('O', False, (('a', x),)), lambda x: ('U', False, (x, ('#', False)))):
+                a, b = norm_sh(wrap(s)), norm_sh(wrap(m))
+                out.append((a, b)); out.append((b, a))
+    seen, res = set(), []
+    for a, b in out:
+        k = (sh_str(a), sh_str(b))
+        if k not in seen:
+            seen.add(k); res.append((a, b))
+    return res
